@@ -490,6 +490,7 @@ pub struct Marker {
     pub named_iter: HashSet<usize>,
     pub ats: Vec<(AtAnchor, usize)>, // anchor, marker id
     pub placed: HashSet<usize>,
+    pub seen: HashMap<usize, usize>, // marker id -> number of statements matched so far (`#N` anchors)
     pub loops: Vec<(usize, usize, String)>, // ordinal, src line, kind
 }
 
@@ -616,8 +617,18 @@ impl VisitMut for Marker {
                     }
                     AtAnchor::StmtBefore(ref key) | AtAnchor::StmtAfter(ref key) => {
                         // do not match the markers themselves
+                        // `<text>#N` selects the N-th statement (in traversal order) whose text starts with <text>; default: the first
+                        let (key, nth) = match key.rsplit_once('#') {
+                            Some((k0, n0)) if n0.chars().all(|c| c.is_ascii_digit()) && !n0.is_empty() => (k0.to_string(), n0.parse::<usize>().unwrap_or(1)),
+                            _ => (key.clone(), 1usize),
+                        };
                         let t = text.get_or_insert_with(|| norm(&s.to_token_stream()));
                         if t.starts_with(key.as_str()) {
+                            let seen = self.seen.entry(k).or_insert(0);
+                            *seen += 1;
+                            if *seen != nth {
+                                continue;
+                            }
                             if matches!(a, AtAnchor::StmtBefore(_)) {
                                 before.push(marker_stmt("__VX_AT_", k));
                             } else {
